@@ -305,4 +305,112 @@ theorem foldl_filter_good (b : Backend) (T : Path → Bytes → Except Nat Bytes
       simp only [List.foldl_cons]
       rw [ih _ hst1 hp.2, hfilter]
 
+
+/-! ### deleting files that no remaining item touches -/
+
+/-- the store with the locations `D` removed -/
+def eraseStore (s : Store) (D : List Path) : Store := fun q => if D.contains q then none else s q
+
+/-- two stores agree outside `D` -/
+def AgreeOff (D : List Path) (s s' : Store) : Prop := ∀ q, D.contains q = false → s q = s' q
+
+/-- nothing an item reads or writes lies in `D`: its source, its destination and (file system)
+the strict ancestors of its destination -/
+def Footprint (b : Backend) (D : List Path) (x : Item) : Prop :=
+  D.contains (resolve b x.source) = false ∧ D.contains (resolve b x.output) = false ∧
+  (b.fsys = true → ∀ n, n < (resolve b x.output).length →
+    D.contains ((resolve b x.output).take n) = false)
+
+theorem agreeOff_erase (s : Store) (D : List Path) : AgreeOff D s (eraseStore s D) := by
+  intro q hq; simp only [eraseStore, hq, Bool.false_eq_true, if_false]
+
+theorem itemResult_agree (b : Backend) (T : Path → Bytes → Except Nat Bytes) (D : List Path)
+    (s s' : Store) (x : Item) (h : AgreeOff D s s') (hf : Footprint b D x) :
+    itemResult b T s x = itemResult b T s' x := by
+  obtain ⟨h1, h2, h3⟩ := hf
+  have hr : read b s x.source = read b s' x.source := by simp [read, h _ h1]
+  have hw : writeError b s x.output = writeError b s' x.output := by
+    cases hb : b.fsys
+    · simp [writeError, hb]
+    · have hba : blockedAncestor s (resolve b x.output) = blockedAncestor s' (resolve b x.output) := by
+        simp only [blockedAncestor]
+        apply Bool.eq_iff_iff.mpr
+        simp only [List.any_eq_true, List.mem_range]
+        constructor
+        · rintro ⟨n, hn, hh⟩; exact ⟨n, hn, by rw [← h _ (h3 hb n hn)]; exact hh⟩
+        · rintro ⟨n, hn, hh⟩; exact ⟨n, hn, by rw [h _ (h3 hb n hn)]; exact hh⟩
+      simp only [writeError, hb, if_true, hba, h _ h2]
+  simp only [itemResult, hr, hw]
+
+theorem applyWrite_agree (b : Backend) (D : List Path) (s s' : Store) (loc : Path) (c : Bytes)
+    (h : AgreeOff D s s') : AgreeOff D (applyWrite b s loc c) (applyWrite b s' loc c) := by
+  intro q hq
+  cases hb : b.fsys
+  · simp only [applyWrite, hb, Bool.false_eq_true, if_false, upd]
+    split
+    · rfl
+    · exact h q hq
+  · simp only [applyWrite, hb, if_true, upd, mkdirs]
+    split
+    · rfl
+    · rw [h q hq]
+
+theorem foldl_agree (b : Backend) (T : Path → Bytes → Except Nat Bytes) (ff : Bool)
+    (D : List Path) (l : List Item) :
+    ∀ (st st' : State), AgreeOff D st.store st'.store → st.status = st'.status →
+      st.stopped = st'.stopped → (∀ x ∈ l, Footprint b D x) →
+      AgreeOff D (l.foldl (step b T ff) st).store (l.foldl (step b T ff) st').store ∧
+      (l.foldl (step b T ff) st).status = (l.foldl (step b T ff) st').status ∧
+      (l.foldl (step b T ff) st).stopped = (l.foldl (step b T ff) st').stopped := by
+  induction l with
+  | nil => intro st st' h1 h2 h3 _; exact ⟨h1, h2, h3⟩
+  | cons x l ih =>
+    intro st st' h1 h2 h3 hf
+    simp only [List.foldl_cons]
+    have hx := hf x List.mem_cons_self
+    have hres := itemResult_agree b T D st.store st'.store x h1 hx
+    apply ih _ _ _ _ _ (fun y hy => hf y (List.mem_cons_of_mem _ hy))
+    · simp only [step, ← h3, ← hres]
+      cases st.stopped
+      · simp only [Bool.false_eq_true, if_false]
+        cases itemResult b T st.store x with
+        | error e => exact h1
+        | ok bytes => exact applyWrite_agree b D _ _ _ _ h1
+      · simpa using h1
+    · simp only [step, ← h3, ← hres, ← h2]
+      cases st.stopped
+      · simp only [Bool.false_eq_true, if_false]
+        cases itemResult b T st.store x <;> rfl
+      · simp [h2]
+    · simp only [step, ← h3, ← hres]
+      cases hs : st.stopped
+      · simp only [Bool.false_eq_true, if_false]
+        cases itemResult b T st.store x <;> simp [hs, ← h3]
+      · simp [← h3, hs]
+
+/-- independent items stay clear of each other's sources -/
+theorem footprint_of_indep (b : Backend) (D : List Path) (x : Item)
+    (h : ∀ p ∈ D, ∃ d, Indep b x d ∧ p = resolve b d.source) : Footprint b D x := by
+  refine ⟨?_, ?_, ?_⟩
+  · cases hc : D.contains (resolve b x.source) with
+    | false => rfl
+    | true =>
+      obtain ⟨d, hi, e⟩ := h _ (List.contains_iff_mem.mp hc)
+      exact absurd e hi.2.1
+  · cases hc : D.contains (resolve b x.output) with
+    | false => rfl
+    | true =>
+      obtain ⟨d, hi, e⟩ := h _ (List.contains_iff_mem.mp hc)
+      exact absurd e hi.2.2.2.1
+  · intro hb n hn
+    cases hc : D.contains ((resolve b x.output).take n) with
+    | false => rfl
+    | true =>
+      obtain ⟨d, hi, e⟩ := h _ (List.contains_iff_mem.mp hc)
+      have hpp := take_properPrefix (resolve b x.output) n hn
+      rw [e] at hpp
+      have := (hi.2.2.2.2.2 hb).2.2.2
+      rw [hpp] at this
+      cases this
+
 end DarkluaModel.C11
